@@ -14,6 +14,7 @@
 
 //! Elixir Range type support.
 
+use crate::int_field::integer_field;
 use erltf::{Atom, OwnedTerm};
 use serde::{Deserialize, Serialize};
 use std::collections::BTreeMap;
@@ -133,9 +134,9 @@ impl ElixirRange {
         let last_key = OwnedTerm::Atom(Atom::new("last"));
         let step_key = OwnedTerm::Atom(Atom::new("step"));
 
-        let first = map.get(&first_key)?.as_integer()?;
-        let last = map.get(&last_key)?.as_integer()?;
-        let step = map.get(&step_key)?.as_integer()?;
+        let first = integer_field(map.get(&first_key)?)?;
+        let last = integer_field(map.get(&last_key)?)?;
+        let step = integer_field(map.get(&step_key)?)?;
 
         Some(Self { first, last, step })
     }
